@@ -19,11 +19,14 @@ package home
 // is not one of the wrappers' exact denial signatures.
 
 import (
+	"bufio"
 	"context"
 	"encoding/json"
 	"fmt"
 	"io"
+	stdlog "log"
 	"math/rand/v2"
+	"net"
 	"net/http"
 	"net/http/httptest"
 	"net/netip"
@@ -32,6 +35,7 @@ import (
 	"reflect"
 	"sort"
 	"strings"
+	"sync"
 	"testing"
 	"testing/fstest"
 	"time"
@@ -67,6 +71,10 @@ type c11State struct {
 	entered  bool            // set by a stub handler
 	patterns []string        // patterns registered on the real mux
 	facts    []c11Fact       // extracted routes (may be empty when facts.json is missing)
+
+	mu       sync.Mutex   // serialises the request in flight (client side and server goroutine)
+	wireAddr string       // address of the real HTTP server
+	wireObs  chan *c11Obs // serving-side observation of the request in flight
 }
 
 type c11Fact struct {
@@ -309,13 +317,49 @@ func c11SetGlobals(firstRun, usersExist bool) {
 	c11SetSessions()
 }
 
-func c11Body(n int) io.Reader {
-	if n <= 0 {
-		return nil
+// c11ParseLen decodes the body field of a line: "n" is a body of n bytes with a
+// known length, "u<n>" a body of n bytes whose length is not announced
+// (ContentLength -1: chunked transfer encoding, HTTP/2 without content-length).
+func c11ParseLen(s string) (known bool, n int) {
+	if rest, ok := strings.CutPrefix(s, "u"); ok {
+		return false, vutil.Atoi(rest)
 	}
 
-	// Never valid JSON: no handler that decodes its body goes any further.
-	return strings.NewReader("{" + strings.Repeat(" ", n-1))
+	return true, vutil.Atoi(s)
+}
+
+// c11BodyBytes is never valid JSON: no handler that decodes its body goes any
+// further.
+func c11BodyBytes(n int) string {
+	if n <= 0 {
+		return ""
+	}
+
+	return "{" + strings.Repeat(" ", n-1)
+}
+
+// c11NewRequest builds an in-process request with the announced length.
+func c11NewRequest(method, target, lenSpec string) (r *http.Request) {
+	known, n := c11ParseLen(lenSpec)
+	if known {
+		var body io.Reader
+		if n > 0 {
+			body = strings.NewReader(c11BodyBytes(n))
+		}
+		r = httptest.NewRequest(method, target, body)
+		if int(r.ContentLength) != n {
+			panic(fmt.Sprintf("content length %d, want %d", r.ContentLength, n))
+		}
+
+		return r
+	}
+
+	// What net/http hands to a handler for a chunked request.
+	r = httptest.NewRequest(method, target, io.NopCloser(strings.NewReader(c11BodyBytes(n))))
+	r.ContentLength = -1
+	r.TransferEncoding = []string{"chunked"}
+
+	return r
 }
 
 // c11Decorate sets the credentials and content type of a request.
@@ -357,13 +401,11 @@ func c11Decorate(r *http.Request, cookie, basic, ctype string) {
 // A denial by a wrapper has one of these exact signatures; anything else
 // (including a recovered panic of a handler) means the registered handler was
 // entered.
-func c11Classify(method string, rec *httptest.ResponseRecorder, panicked bool) string {
+func c11Classify(method string, code int, hdr http.Header, body string, panicked bool) string {
 	if panicked {
 		return "ran"
 	}
-	body := rec.Body.String()
-	hdr := rec.Header()
-	switch rec.Code {
+	switch code {
 	case http.StatusForbidden:
 		switch body {
 		case "Forbidden":
@@ -404,7 +446,7 @@ func c11Classify(method string, rec *httptest.ResponseRecorder, panicked bool) s
 	return "ran"
 }
 
-func c11ServeRecover(h http.Handler, rec *httptest.ResponseRecorder, r *http.Request) (panicked bool) {
+func c11ServeRecover(h http.Handler, rec http.ResponseWriter, r *http.Request) (panicked bool) {
 	defer func() {
 		if v := recover(); v != nil {
 			panicked = true
@@ -415,64 +457,176 @@ func c11ServeRecover(h http.Handler, rec *httptest.ResponseRecorder, r *http.Req
 	return false
 }
 
+// c11Obs is what is observed on the serving side of one request.
+type c11Obs struct {
+	path     string // URL.Path as the handlers see it
+	muxkind  string // route | muxredir | muxnotfound
+	pat      string // the pattern ServeMux.Handler reports
+	cl       int64  // the ContentLength the handlers see
+	panicked bool
+	entered  bool // a stub handler ran
+}
+
+// c11Observe asks the real mux who serves r, then serves r through the real
+// handler stack.  c11.mu must be held.
+func c11Observe(w http.ResponseWriter, r *http.Request) (o *c11Obs) {
+	o = &c11Obs{path: r.URL.Path, muxkind: "route", cl: r.ContentLength}
+	var h http.Handler
+	h, o.pat = globalContext.mux.Handler(r)
+	switch {
+	case reflect.TypeOf(h).String() == "*http.redirectHandler":
+		o.muxkind = "muxredir"
+	case o.pat == "":
+		o.muxkind = "muxnotfound"
+	}
+
+	c11.entered = false
+	o.panicked = c11ServeRecover(c11.handler, w, r)
+	o.entered = c11.entered
+
+	return o
+}
+
+// fields turns the serving-side observation and the response into the
+// implementation fields of a C11.req / C11.wire line.
+func (o *c11Obs) fields(method string, code int, hdr http.Header, body string) []string {
+	var kind string
+	switch o.muxkind {
+	case "muxredir":
+		kind = "muxRedirect"
+		if o.panicked || code/100 != 3 || o.entered {
+			kind = "INCONSISTENT-mux-redirect"
+		}
+	case "muxnotfound":
+		kind = "muxNotFound"
+		if o.panicked || (code != http.StatusNotFound && code != http.StatusMethodNotAllowed) || o.entered {
+			kind = "INCONSISTENT-mux-notfound"
+		}
+	default:
+		kind = c11Classify(method, code, hdr, body, o.panicked)
+		if c11.stubbed[o.pat] && (kind == "ran") != o.entered {
+			// The signature-based classification disagrees with the stub's
+			// ground truth.
+			kind = fmt.Sprintf("INCONSISTENT-%s-entered=%v", kind, o.entered)
+		}
+	}
+
+	return []string{
+		vutil.Hex(o.path), o.muxkind, vutil.Hex(o.pat), kind,
+		vutil.Itoa(code), vutil.Hex(hdr.Get("Location")), vutil.Itoa(int(o.cl)),
+	}
+}
+
+// c11StartServer starts a real HTTP server around the same handler stack; the
+// serving-side observation of each request is handed over on c11.wireObs.
+func c11StartServer(t *testing.T) {
+	c11.wireObs = make(chan *c11Obs, 1)
+	srv := httptest.NewUnstartedServer(http.HandlerFunc(func(w http.ResponseWriter, r *http.Request) {
+		c11.mu.Lock()
+		defer c11.mu.Unlock()
+		o := c11Observe(w, r)
+		if o.panicked {
+			// net/http would abort the connection; answer instead so that the
+			// client side can tell a handler panic from a transport error.
+			w.WriteHeader(http.StatusInternalServerError)
+		}
+		c11.wireObs <- o
+	}))
+	srv.Config.ErrorLog = stdlog.New(io.Discard, "", 0)
+	srv.Start()
+	t.Cleanup(srv.Close)
+	c11.wireAddr = srv.Listener.Addr().String()
+}
+
+// c11Wire writes one HTTP/1.1 request byte by byte on a TCP connection: a body
+// of unknown length really is a chunked body, and ContentLength is whatever
+// net/http's server makes of it.
+func c11Wire(method, target, cookie, basic, ctype, lenSpec string) []string {
+	hr := &http.Request{Header: http.Header{}}
+	c11Decorate(hr, cookie, basic, ctype)
+
+	var sb strings.Builder
+	fmt.Fprintf(&sb, "%s %s HTTP/1.1\r\nHost: %s\r\nConnection: close\r\n", method, target, c11.wireAddr)
+	for k, vs := range hr.Header {
+		for _, v := range vs {
+			fmt.Fprintf(&sb, "%s: %s\r\n", k, v)
+		}
+	}
+	known, n := c11ParseLen(lenSpec)
+	body := c11BodyBytes(n)
+	switch {
+	case known && n == 0:
+		sb.WriteString("\r\n")
+	case known:
+		fmt.Fprintf(&sb, "Content-Length: %d\r\n\r\n%s", n, body)
+	default:
+		sb.WriteString("Transfer-Encoding: chunked\r\n\r\n")
+		if n > 0 {
+			fmt.Fprintf(&sb, "%x\r\n%s\r\n", n, body)
+		}
+		sb.WriteString("0\r\n\r\n")
+	}
+
+	conn, err := net.DialTimeout("tcp", c11.wireAddr, 5*time.Second)
+	if err != nil {
+		panic(err)
+	}
+	defer func() { _ = conn.Close() }()
+	_ = conn.SetDeadline(time.Now().Add(10 * time.Second))
+	if _, err = io.WriteString(conn, sb.String()); err != nil {
+		panic(err)
+	}
+	resp, err := http.ReadResponse(bufio.NewReader(conn), &http.Request{Method: method})
+	if err != nil {
+		panic(fmt.Sprintf("reading response: %v", err))
+	}
+	respBody, _ := io.ReadAll(resp.Body)
+	_ = resp.Body.Close()
+
+	select {
+	case o := <-c11.wireObs:
+		return o.fields(method, resp.StatusCode, resp.Header, string(respBody))
+	case <-time.After(5 * time.Second):
+		panic(fmt.Sprintf("no serving-side observation (status %d)", resp.StatusCode))
+	}
+}
+
 // c11Run executes one line on the implementation.
 func c11Run(f []string) []string {
 	switch f[0] {
 	case "C11.req":
 		firstRun, usersExist := vutil.UnB(f[1]), vutil.UnB(f[2])
 		method, target := vutil.Unhex(f[3]), vutil.Unhex(f[4])
-		cookie, basic, ctype, bodyLen := f[5], f[6], vutil.Unhex(f[7]), vutil.Atoi(f[8])
+		cookie, basic, ctype, lenSpec := f[5], f[6], vutil.Unhex(f[7]), f[8]
 
+		c11.mu.Lock()
+		defer c11.mu.Unlock()
 		c11SetGlobals(firstRun, usersExist)
-		r := httptest.NewRequest(method, target, c11Body(bodyLen))
+		r := c11NewRequest(method, target, lenSpec)
 		c11Decorate(r, cookie, basic, ctype)
-		if int(r.ContentLength) != bodyLen {
-			panic(fmt.Sprintf("content length %d, want %d", r.ContentLength, bodyLen))
-		}
 
-		h, pat := globalContext.mux.Handler(r)
-		muxkind := "route"
-		switch {
-		case reflect.TypeOf(h).String() == "*http.redirectHandler":
-			muxkind = "muxredir"
-		case pat == "":
-			muxkind = "muxnotfound"
-		}
-
-		c11.entered = false
 		rec := httptest.NewRecorder()
-		panicked := c11ServeRecover(c11.handler, rec, r)
-		var kind string
-		switch muxkind {
-		case "muxredir":
-			kind = "muxRedirect"
-			if panicked || rec.Code/100 != 3 || c11.entered {
-				kind = "INCONSISTENT-mux-redirect"
-			}
-		case "muxnotfound":
-			kind = "muxNotFound"
-			if panicked || (rec.Code != http.StatusNotFound && rec.Code != http.StatusMethodNotAllowed) || c11.entered {
-				kind = "INCONSISTENT-mux-notfound"
-			}
-		default:
-			kind = c11Classify(method, rec, panicked)
-			if c11.stubbed[pat] && (kind == "ran") != c11.entered {
-				// The signature-based classification disagrees with the stub's
-				// ground truth.
-				kind = fmt.Sprintf("INCONSISTENT-%s-entered=%v", kind, c11.entered)
-			}
-		}
+		o := c11Observe(rec, r)
 
-		return []string{
-			vutil.Hex(r.URL.Path), muxkind, vutil.Hex(pat), kind,
-			vutil.Itoa(rec.Code), vutil.Hex(rec.Header().Get("Location")),
-		}
+		return o.fields(method, rec.Code, rec.Header(), rec.Body.String())
+	case "C11.wire":
+		firstRun, usersExist := vutil.UnB(f[1]), vutil.UnB(f[2])
+		method, target := vutil.Unhex(f[3]), vutil.Unhex(f[4])
+		cookie, basic, ctype, lenSpec := f[5], f[6], vutil.Unhex(f[7]), f[8]
+
+		c11.mu.Lock()
+		c11SetGlobals(firstRun, usersExist)
+		c11.mu.Unlock()
+
+		return c11Wire(method, target, cookie, basic, ctype, lenSpec)
 	case "C11.chain":
 		chain := f[1]
 		firstRun, usersExist := vutil.UnB(f[2]), vutil.UnB(f[3])
 		method, path := vutil.Unhex(f[4]), vutil.Unhex(f[5])
-		cookie, basic, ctype, bodyLen := f[6], f[7], vutil.Unhex(f[8]), vutil.Atoi(f[9])
+		cookie, basic, ctype, lenSpec := f[6], f[7], vutil.Unhex(f[8]), f[9]
 
+		c11.mu.Lock()
+		defer c11.mu.Unlock()
 		c11SetGlobals(firstRun, usersExist)
 		entered := false
 		var h http.Handler = http.HandlerFunc(func(w http.ResponseWriter, _ *http.Request) {
@@ -500,12 +654,12 @@ func c11Run(f []string) []string {
 				panic("bad wrapper " + ws[i])
 			}
 		}
-		r := httptest.NewRequest(method, "/", c11Body(bodyLen))
+		r := c11NewRequest(method, "/", lenSpec)
 		r.URL.Path = path
 		c11Decorate(r, cookie, basic, ctype)
 		rec := httptest.NewRecorder()
 		h.ServeHTTP(rec, r)
-		kind := c11Classify(method, rec, false)
+		kind := c11Classify(method, rec.Code, rec.Header(), rec.Body.String(), false)
 		if (kind == "ran") != entered {
 			kind = fmt.Sprintf("INCONSISTENT-%s-entered=%v", kind, entered)
 		}
@@ -661,6 +815,15 @@ func c11GenChain(r *rand.Rand) string {
 	return strings.Join(ws, ",")
 }
 
+// c11LenSpec announces the length of a body of n bytes, or (1 in 4) does not.
+func c11LenSpec(r *rand.Rand, n int) string {
+	if r.IntN(4) == 0 {
+		return "u" + vutil.Itoa(n)
+	}
+
+	return vutil.Itoa(n)
+}
+
 func c11Gen(r *rand.Rand, emit vutil.Emit) {
 	n := vutil.N(30000)
 
@@ -705,8 +868,47 @@ func c11Gen(r *rand.Rand, emit vutil.Emit) {
 		}
 	}
 
+	// State-changing routes, for the requests that go over a real connection.
+	var changing []string
+	for _, p := range pats {
+		switch declared[p] {
+		case http.MethodPost, http.MethodPut, http.MethodDelete:
+			changing = append(changing, p)
+		}
+	}
+	if len(changing) == 0 {
+		changing = pats
+	}
+	// Every state-changing route, authenticated, with a body whose length is not
+	// announced and every kind of content type: in process and over the wire.
+	wireCTypes := []string{"", "application/json", "application/json; charset=utf-8", "application/x-www-form-urlencoded", "text/plain"}
+	for _, p := range changing {
+		for _, ct := range wireCTypes {
+			for _, ls := range []string{"u0", "u2"} {
+				emit("C11.req", "0", "1", vutil.Hex(declared[p]), vutil.Hex(p), "valid", "none", vutil.Hex(ct), ls)
+			}
+		}
+		emit("C11.wire", "0", "1", vutil.Hex(declared[p]), vutil.Hex(p), "valid", "none", "-", "u2")
+		emit("C11.wire", "0", "1", vutil.Hex(declared[p]), vutil.Hex(p), "none", "right", "-", "u0")
+	}
+
 	for i := 0; i < n; i++ {
 		switch {
+		case i%20 == 19:
+			p := vutil.Pick(r, changing)
+			method := declared[p]
+			if method == "" || r.IntN(7) == 0 {
+				method = vutil.Pick(r, []string{"GET", "POST", "PUT", "DELETE", "PATCH", "post"})
+			}
+			ls := vutil.Pick(r, []string{"0", "2", "u0", "u0", "u1", "u2", "u2", "u3"})
+			cookie, basic := "valid", "none"
+			if r.IntN(4) == 0 {
+				cookie, basic = vutil.Pick(r, c11Cookies), vutil.Pick(r, c11Basics)
+			}
+			emit("C11.wire", vutil.B(r.IntN(20) == 0), vutil.B(r.IntN(10) > 0), vutil.Hex(method), vutil.Hex(p),
+				cookie, basic, vutil.Hex(vutil.Pick(r, wireCTypes)), ls)
+
+			continue
 		case i%12 == 11:
 			var p string
 			switch r.IntN(3) {
@@ -755,7 +957,7 @@ func c11Gen(r *rand.Rand, emit vutil.Emit) {
 				}
 			}
 			emit("C11.chain", c11GenChain(r), vutil.B(r.IntN(6) == 0), vutil.B(r.IntN(6) > 0), vutil.Hex(method),
-				vutil.Hex(path), vutil.Pick(r, c11Cookies), vutil.Pick(r, c11Basics), vutil.Hex(ctype), vutil.Itoa(bodyLen))
+				vutil.Hex(path), vutil.Pick(r, c11Cookies), vutil.Pick(r, c11Basics), vutil.Hex(ctype), c11LenSpec(r, bodyLen))
 
 			continue
 		}
@@ -792,7 +994,7 @@ func c11Gen(r *rand.Rand, emit vutil.Emit) {
 		firstRun := r.IntN(10) == 0
 		usersExist := r.IntN(8) > 0
 		emit("C11.req", vutil.B(firstRun), vutil.B(usersExist), vutil.Hex(method), vutil.Hex(tgt),
-			vutil.Pick(r, c11Cookies), vutil.Pick(r, c11Basics), vutil.Hex(ctype), vutil.Itoa(bodyLen))
+			vutil.Pick(r, c11Cookies), vutil.Pick(r, c11Basics), vutil.Hex(ctype), c11LenSpec(r, bodyLen))
 	}
 }
 
@@ -801,5 +1003,6 @@ func TestVerifC11(t *testing.T) {
 		t.Skip("VERIF_OUT not set; verification harness is driven by /verif/bin/check")
 	}
 	c11 = c11Build(t)
+	c11StartServer(t)
 	vutil.Main(t, c11Gen, c11Run)
 }
